@@ -31,6 +31,8 @@ Check C05_snapshot_depth : forall b d,
              if Nat.ltb (rank Ask (asks b) p) d then lookup (asks b) p else None).
 Check C05_sequence_is_last : forall evs e b,
   bseq (fold_left update (evs ++ [e]) b) = event_seq e.
+Check C05_manager_routes : forall evs bs i d, (i < length bs)%nat ->
+  nth i (fold_left mgr_step evs bs) d = fold_left update (route i evs) (nth i bs d).
 Check C05_oracle_sound : forall c, wf_case c = true -> corr_b c = true -> prop_b c = true.
 (* the definitions the statements rest on, pinned by evaluation *)
 Check eq_refl : upsert_single Bid [(5, 1); (3, 1)]%Z (4, 2)%Z = [(5, 1); (4, 2); (3, 1)]%Z.
@@ -39,3 +41,5 @@ Check eq_refl : spec_upsert_single pempty (4, 0)%Z 4%Z = None.
 Check eq_refl : spec_upsert_single pempty (4, 2)%Z 4%Z = Some 2%Z.
 Check eq_refl : strict_sorted Bid [(5, 1); (5, 2)]%Z = false.
 Check eq_refl : strict_sorted Ask [(3, 1); (5, 1)]%Z = true.
+Check eq_refl : route 1 [(Some 0%nat, Update 1 None [] []); (None, Update 2 None [] []); (Some 1%nat, Update 3 None [] [])]
+               = [Update 3 None [] []].
